@@ -178,6 +178,8 @@ def run(rep):
     progs = [gen.program() for _ in range(n)]
     # 1. correspondence (values, errors, trace sequences)
     srcs, io, mo = C.run_pair(progs, max_stack=500, fuel=6000)
+    # the same source texts through the whole-pipeline model (lexer + parser + lowering + analysis + evaluator)
+    C.check_pipe(rep, 'c04:', srcs, io, mo, max_stack=500, fuel=6000, label='generated')
     ok_prog = []
     for p, s, a, b in zip(progs, srcs, io, mo):
         ntr = a.count(',') + (1 if a.split(' T')[-1] else 0) if ' T' in a else 0
@@ -211,6 +213,7 @@ def run(rep):
             q = replace(p, list(path), mk(node))
             cases.append((name, p, a, q, len(path)))
     outs = [C.canon_impl(x) for x in vlib.impl([vlib.eval_line(G.to_jsonnet(q), max_stack=500, traces=1) for _, _, _, q, _ in cases])]
+    C.check_pipe(rep, 'c04rw:', [G.to_jsonnet(q) for _, _, _, q, _ in cases], outs, None, max_stack=500, fuel=6000, label='rewritten programs')
     for (name, p, a, q, depth), b in zip(cases, outs):
         rep.bump('rewrite:' + name)
         src2 = G.to_jsonnet(q)
@@ -247,7 +250,9 @@ def run(rep):
                           {'src': src, 'impl': a, 'expected_count': 0})
     outs = vlib.impl([vlib.eval_line(G.to_jsonnet(p), max_stack=500, traces=1) for p, _, _ in tcases])
     # the same templates through the model: value and std.trace sequence
-    _, tio, tmo = C.run_pair([p for p, _, _ in tcases], max_stack=500, fuel=6000)
+    tsrcs, tio, tmo = C.run_pair([p for p, _, _ in tcases], max_stack=500, fuel=6000)
+    C.check_pipe(rep, 'c04once:', tsrcs, tio, [None if l.startswith('std.map') else m for (_, _, l), m in zip(tcases, tmo)],
+                 max_stack=500, fuel=6000, label='sharing templates')
     for (p, _, label), a, b in zip(tcases, tio, tmo):
         if b.startswith('unsupported') or b.startswith('gas') or ' analyze ' in a or ' parse ' in a or label.startswith('std.map'):
             continue   # (the core model has no std.map)
@@ -293,4 +298,5 @@ def replay(r):
     if 'expected_count' in rp:
         tr = a.rsplit(' T', 1)[1].split(',') if ' T' in a else []
         bad |= sum(1 for t in tr if t == vlib.hx('ONCE')) != rp['expected_count']
+    bad |= C.replay_pipe(rp, a)
     return 1 if bad else 0
